@@ -204,10 +204,12 @@ P('C07', claimed=True, level='other',
   unreached=['RT stamping for all schedules (sampled under injected jitter)'])
 
 P('C08', claimed=True, level='other',
-  contracts=['base_clock_loops'], drivers=['vf.drivers.C08'],
+  contracts=['base_clock_loops', 'base_clock_stop'], drivers=['vf.drivers.C08'],
   level_text=('Monitor obligations on the sequential code under the lock are proved (notification iff '
               'the head of the queue changes; exceptions of a task never escape the loop and leave the '
-              'awake flag cleared; numeric return re-schedules relative to the scheduled time). Exactly-'
+              'awake flag cleared; numeric return re-schedules relative to the scheduled time; stop: queue '
+              'cleared, run flag down and the clock thread notified in one critical section, joined outside it; '
+              'clear: popped under the lock until empty, thread notified). Exactly-'
               'once, never-early, order, cancellation and error isolation are checked by ghost monitors '
               'on the real clock threads (bounded stress); timeliness gates only on the discriminating '
               'scenario (a task becoming earliest while the thread sleeps).'),
@@ -247,7 +249,7 @@ P('C10', claimed=True, level='other', contracts=['base_clock_sched', 'base_rng',
   unreached=['the RT side for all schedules'])
 
 P('C11', claimed=True, level='other',
-  contracts=['base_stream', 'base_condition'], drivers=['vf.drivers.C11'],
+  contracts=['base_stream', 'base_condition', 'base_clock_stop'], drivers=['vf.drivers.C11'],
   level_text=('Frame conditions of Routine.next are discharged for every outcome of the body (yield, '
               'return, StopStream, YieldAndReset, AlwaysYield, other exceptions): the current time '
               'thread is restored, the parent link cleared, the state is the documented one; the guard '
